@@ -275,6 +275,12 @@ func (mz *Merklizer) UnmarshalBinary(in []byte) error {
 		return err
 	}
 
+	// every entry takes at least one byte of input: anything else is a
+	// corrupted stream (and must not be used as an allocation size)
+	if entriesLen < 0 || entriesLen > len(in) {
+		return fmt.Errorf("invalid number of entries: %v", entriesLen)
+	}
+
 	entries := make([]RDFEntry, entriesLen)
 	mz.entries = make(map[string]RDFEntry, entriesLen)
 
